@@ -824,9 +824,45 @@ fn case_map(rng: &mut Rng, op: &'static str) -> Case {
     Case { op, flags: pick_flags(rng), args: mangle(rng, items) }
 }
 
+/// pairs whose mathematical pairing product is 1: cancelling couples (aP,Q),(−P,aQ) with pairs
+/// containing points at infinity inserted at random positions (finding J lives here)
+fn pairing_with_infinities(rng: &mut Rng) -> Vec<T> {
+    let couples = *rng.pick(&[0u64, 0, 1, 1, 1, 2, 3, 4, 8]);
+    let mut pairs: Vec<(Vec<u8>, Vec<u8>)> = Vec::new();
+    for _ in 0..couples {
+        let a = rand_scalar_bytes(rng);
+        let mut p = G1Element::from_integer(&rand_scalar_bytes(rng));
+        let q0 = {
+            let mut g = G2Element::generator();
+            g.scalar_multiply(&rand_scalar_bytes(rng));
+            g
+        };
+        let mut ap = p.clone();
+        ap.scalar_multiply(&a);
+        let mut aq = q0.clone();
+        aq.scalar_multiply(&a);
+        p.negate();
+        pairs.push((ap.to_bytes().to_vec(), q0.to_bytes().to_vec()));
+        pairs.push((p.to_bytes().to_vec(), aq.to_bytes().to_vec()));
+    }
+    let inf1 = G1Element::default().to_bytes().to_vec();
+    let inf2 = G2Element::default().to_bytes().to_vec();
+    for _ in 0..1 + rng.below(3) {
+        let e = match rng.below(3) {
+            0 => (inf1.clone(), inf2.clone()),
+            1 => (inf1.clone(), g2_rand(rng).to_bytes().to_vec()),
+            _ => (g1_rand(rng).to_bytes().to_vec(), inf2.clone()),
+        };
+        let pos = rng.below(pairs.len() as u64 + 1) as usize;
+        pairs.insert(pos, e);
+    }
+    pairs.into_iter().flat_map(|(a, b)| [T::A(a), T::A(b)]).collect()
+}
+
 fn case_pairing(rng: &mut Rng) -> Case {
     let mut items = Vec::new();
-    match rng.below(8) {
+    match rng.below(10) {
+        8 | 9 => items = pairing_with_infinities(rng),
         0 => {}
         1 | 2 | 3 => {
             // e(aP, Q) · e(-P, aQ) = 1, possibly perturbed
@@ -1073,8 +1109,20 @@ fn line(id: &str, op: &str, flags: u32, budget: u64, args: &T, mode: &str) -> St
     format!("CRYPTO {} {} {:08x} {} {} {} {}", id, op, flags, budget, args.hex(), oracle_field(op, args), mode)
 }
 
-pub fn generate(rng: &mut Rng, n: usize, tier: &str) -> Vec<String> {
+pub fn generate(name: &str, rng: &mut Rng, n: usize, tier: &str) -> Vec<String> {
     let mut out = Vec::new();
+    if name == "crypto_pairing" {
+        // pairing operators only, biased towards points at infinity (finding J) and long lists (blst batches of 8)
+        for i in 0..n {
+            let c = match rng.below(4) {
+                0 => case_verify(rng),
+                1 => case_pairing(rng),
+                _ => Case { op: "bls_pairing_identity", flags: pick_flags(rng), args: T::list(pairing_with_infinities(rng)) },
+            };
+            out.push(line(&format!("p{}", i), c.op, c.flags, u64::MAX, &c.args, "f"));
+        }
+        return out;
+    }
     // 1. the repository's vectors (sampled in the quick tier; all of them in the thorough tier)
     let vectors = load_vectors();
     let keep = if tier == "thorough" { vectors.len() } else { (n / 2).min(vectors.len()) };
@@ -1328,6 +1376,32 @@ pub fn oracle(name: &str, rng: &mut Rng, n: usize, _tier: &str) -> OracleReport 
                     }
                 }
                 rep.sample(format!("{} {} -> {}", c.op, &c.args.hex()[..c.args.hex().len().min(60)], &f[..f.len().min(60)]));
+            }
+        }
+        "crypto_pairing_spec" => {
+            // implementation vs the mathematical statement "∏ e(Pᵢ,Qᵢ) = 1" on lists whose product is 1 by
+            // construction (bilinearity; a pair containing a point at infinity contributes 1)
+            let inf1 = G1Element::default().to_bytes().to_vec();
+            let inf2 = G2Element::default().to_bytes().to_vec();
+            for _ in 0..n {
+                rep.evaluations += 1;
+                let items = pairing_with_infinities(rng);
+                let args = T::list(items.clone());
+                let fl = if rng.chance(1, 2) { 0 } else { NEW_COST };
+                let r = run_ok("bls_pairing_identity", fl, &args);
+                let bytes: Vec<Vec<u8>> = items.iter().map(|t| if let T::A(b) = t { b.clone() } else { vec![] }).collect();
+                let g2_inf_with_finite_g1 = bytes.chunks(2).any(|c| c[1] == inf2 && c[0] != inf1);
+                let all_inf = bytes.chunks(2).all(|c| c[1] == inf2 && c[0] == inf1);
+                rep.hit(if g2_inf_with_finite_g1 { "g2_infinity" } else if all_inf { "all_infinity" } else { "regular" });
+                match &r {
+                    Ok(_) => rep.nontrivial += 1,
+                    Err(e) if g2_inf_with_finite_g1 || all_inf => rep.fail(
+                        "pairing_spec",
+                        format!("KNOWN-J-pairing-g2-infinity: product of pairings is 1 but the operator answers `{}`: flags={:x} args={}", e, fl, args.hex()),
+                    ),
+                    Err(e) => rep.fail("pairing_spec", format!("product of pairings is 1 but the operator answers `{}`: flags={:x} args={}", e, fl, args.hex())),
+                }
+                rep.sample(format!("{} pairs -> {:?}", bytes.len() / 2, r.map(|x| x.0)));
             }
         }
         _ => panic!("unknown oracle {name}"),
